@@ -313,6 +313,7 @@ PROPS = {
         level_note="only executed code can race; uninstrumented zlib/liblzma internals are invisible; the claim is 'no shared mutable state is touched by the generated workloads', not schedule completeness",
         technique="property-based testing: generated thread workloads, TSan race detection + sequential/concurrent differential",
         assumptions=["outputs of a workload are deterministic when run alone (checked: the sequential reference is compared with the concurrent run)"],
+        stall=300,
         jobs=[dict(harness="mt", prop="c20_threads", cases=(640, 12000), size=(20, 40), args=["--shrink-budget", "60"])],
     ),
 
